@@ -51,6 +51,8 @@ def cases(tier, seed):
             sp["irr"]["kw"]["MaxIrrSeason"] = float(gen.pick(rng, [50, 120, 200]))
         if cls == 3:
             sp["weather"].setdefault("params", {}).update(pwet=0.0, pstorm=0.0)
+        if i % 5 == 2:
+            gen.low_et0(rng, sp)      # days with a reference ET below 0.1 mm
         out.append({"spec": sp})
     return out
 
